@@ -109,7 +109,7 @@ fn collections(ctx: &mut Ctx, rng: &mut Rng, case: u64) {
 }
 
 pub fn run(ctx: &mut Ctx) {
-    let total = ctx.n(20_000, 300_000);
+    let total = ctx.n(20_000, 1_500_000);
     for case in ctx.cases(total) {
         ctx.begin_case(case);
         let mut rng = ctx.rng(case);
